@@ -337,6 +337,33 @@ def make_body(case):
                 sys.stdin = old
             return G.number_of_variables(), [list(c) for c in G.clauses()]
         return body
+    if entry == 'cnfshuffle-o':
+        # the tool writes its result to a file named by -o: whatever the name
+        # ends with, cnfshuffle's output is the reshuffled formula in DIMACS
+        from cnfgen.clitools.cnfshuffle import cli as scli
+        from ref import c06_dimacs_ref as dref
+        d = tempfile.mkdtemp(prefix='c09_')
+        inp = os.path.join(d, 'in.cnf')
+        with open(inp, 'w') as f:
+            f.write(text)
+        outp = os.path.join(d, case['outname'])
+
+        def body():
+            if hasattr(msgmod, '_prefix'):
+                msgmod._prefix = ''
+            if os.path.exists(outp):
+                os.remove(outp)
+            buf = io.StringIO()
+            import contextlib
+            with contextlib.redirect_stdout(buf):
+                scli(['cnfshuffle', '-q', '-i', inp, '-o', outp] + flags, mode='output')
+            with open(outp) as f:
+                P = dref.parse(f.read())
+            if not P.ok:
+                raise AssertionError('the file written with -o %s is not DIMACS: %r' % (case['outname'], P.issues[:2]))
+            return P.n, [list(c) for c in P.clauses]
+        body.cleanup = d
+        return body
     if entry == 'cnfgen-T':
         from cnfgen.clitools.cnfgen import cli as gcli
         d = tempfile.mkdtemp(prefix='c09_')
@@ -537,6 +564,10 @@ def shards(tier, seed):
     for sw in SWITCHES:
         rnd.append({'entry': 'cnfgen-T', 'n': 2, 'clauses': ASYM[1][1], 'switches': list(sw),
                     'asymmetric': True})
+    for outname in ('out.cnf', 'out.opb', 'out.tex', 'out', 'opb'):
+        for sw in ([True, True, True], [False, True, False]):
+            rnd.append({'entry': 'cnfshuffle-o', 'n': ASYM[0][0], 'clauses': ASYM[0][1], 'switches': list(sw),
+                        'outname': outname, 'asymmetric': True})
     # the tools read their input: other legal layouts of the same formula
     for layout in ('wrapped', 'one-line'):
         for entry in ('cnfshuffle', 'cnfgen-T'):
@@ -561,7 +592,7 @@ def shards(tier, seed):
                     'default_seed': seed})
 
     def weight(c):
-        w = {'lib': 1, 'cnfshuffle': 15, 'cnfgen-T': 60}[c['entry']]
+        w = {'lib': 1, 'cnfshuffle': 15, 'cnfshuffle-o': 20, 'cnfgen-T': 60}[c['entry']]
         nf, nv, nc = c['switches']
         return w * (1 if nf else 2 ** c['n']) * (1 if nv else _fact(c['n'])) * \
             (1 if nc else _fact(len(c['clauses'])))
